@@ -46,6 +46,7 @@ type Plan struct {
 	Ops     []Op      `json:"ops"`
 	Readers int       `json:"readers"` // 0: sequential mode; >0: concurrent readers
 	Reads   int       `json:"reads"`
+	Tight   bool      `json:"tight,omitempty"` // concurrent mode without pauses
 }
 
 // valuePool: values of every Go and JSON-decoded kind used by set operations.
@@ -178,6 +179,30 @@ func (H) Generate(prop string, rng *rand.Rand, tier string) any {
 	if rng.IntN(2) == 0 {
 		p.Readers = 1 + rng.IntN(6)
 		p.Reads = 2 + rng.IntN(10)
+	}
+	if rng.IntN(6) == 0 {
+		// tight scenario: few plain options, only sets that succeed, readers and the writer never sleep, so every
+		// interleaving of a getter's refresh with a set is up to the scheduler alone
+		p.Tight = true
+		n = 1 + rng.IntN(2)
+		p.Opts = nil
+		for i := 0; i < n; i++ {
+			t := 1 + rng.IntN(4)
+			p.Opts = append(p.Opts, OptSpec{Type: t, Default: rng.IntN(len(defaults[t]))})
+		}
+		p.Ops = nil
+		for i, k := 0, 3+rng.IntN(8); i < k; i++ {
+			op := Op{Kind: []string{"set", "set", "setdef"}[rng.IntN(3)], Opt: rng.IntN(n)}
+			for {
+				op.Val = pickVal(rng, p.Opts[op.Opt].Type)
+				if _, ok := modelValidate(p.Opts[op.Opt], valuePool[op.Val]); ok || valuePool[op.Val] == nil {
+					break
+				}
+			}
+			p.Ops = append(p.Ops, op)
+		}
+		p.Readers = 1 + rng.IntN(2)
+		p.Reads = 6 + rng.IntN(20)
 	}
 	return p
 }
@@ -767,6 +792,7 @@ func (H) Execute(prop string, plan any, rc *simkit.RunCtx) {
 	// concurrent mode
 	done := make(chan struct{}, p.Readers+1)
 	stop := false
+	owns := make([]*getters, p.Readers)
 	for r := 0; r < p.Readers; r++ {
 		own := mkGetters(p, false)
 		r := r
@@ -783,8 +809,11 @@ func (H) Execute(prop string, plan any, rc *simkit.RunCtx) {
 					rr.Ret = simrt.Seq()
 					s.reads = append(s.reads, rr)
 				}
-				time.Sleep(time.Millisecond)
+				if !p.Tight {
+					time.Sleep(time.Millisecond)
+				}
 			}
+			owns[r] = own
 		}()
 	}
 	go func() {
@@ -798,7 +827,9 @@ func (H) Execute(prop string, plan any, rc *simkit.RunCtx) {
 				return
 			}
 			s.ops = append(s.ops, opRec{Inv: inv, Ret: simrt.Seq(), After: s.model.clone()})
-			time.Sleep(time.Millisecond)
+			if !p.Tight {
+				time.Sleep(time.Millisecond)
+			}
 		}
 	}()
 	for i := 0; i < p.Readers+1; i++ {
@@ -806,6 +837,11 @@ func (H) Execute(prop string, plan any, rc *simkit.RunCtx) {
 	}
 	if !rc.Failed() {
 		s.checkAll(oldC, "after the concurrent phase via shared concurrent getters")
+	}
+	for r, own := range owns {
+		if own != nil && !rc.Failed() {
+			s.checkAll(own, fmt.Sprintf("after the concurrent phase via the getters of reader %d", r))
+		}
 	}
 }
 
